@@ -19,6 +19,10 @@ class HttpHeaderFieldValueComponentExpires(FieldValueComponentDateTime):
     def get_canonical_name(cls):
         return 'expires'
 
+    @classmethod
+    def _check_name(cls, name):
+        cls._check_name_insensitive(name)
+
 
 class HttpHeaderFieldValueComponentMaxAge(FieldValueComponentTimeDelta):
     @classmethod
